@@ -4,6 +4,18 @@ import json
 SC="stateless model checking of the implementation under a controlled scheduler (iterative preemption/delay bounding)"
 ENUM="bounded-exhaustive enumeration over explicit boundary alphabets, every case executed on the real code and compared with a reference model written from the property statement"
 CHECKS = {
+ "C01": dict(engine="enum", technique=ENUM,
+   text="complete sessions of the real SS2022 stream client and server over a scripted in-memory transport for the full configuration matrix (ciphers x identity-header depth 0..3 x prefixes incl. >64 KiB x segmented-header allowance x target kinds), boundary initial-payload lengths, write-size sequences, reader modes (Read with 7 buffer shapes, WriteTo, Read-then-WriteTo), writer modes (Write, ReadFrom), every single structural cut and all handshake cut pairs, transport buffer sizes and chained tunnels through three relay loops; oracle = two reference byte queues",
+   note="identity-header depths >1 are checked by emulated relay hops (the repository has no relay-side EIH code); wire chunking and padding length are not demanded"),
+ "C04": dict(engine="enum", technique=ENUM+" (explicit-state search over ID and packet histories)",
+   text="the sliding-window filter for 8 sizes over absolute and relative boundary IDs to depth 5/6 through both APIs against a set-based reference (every node executed on the real filter), and packet histories to depth 4-7 through the real client/server packers and unpackers for both ciphers x identity header on/off with forged, stale, wrong-direction, foreign-session, reflected and old/new/third server-session packets and clock advances on the virtual clock",
+   note="zones the statement leaves open (second session within a minute of the very first, change exactly at 60 s, change while old-session packets trickle) follow the code and are counted in the evidence"),
+ "C05": dict(engine="enum", technique=ENUM,
+   text="every codec pair (SS2022 with 0..3 identity headers, none, SOCKS5, direct) x every payload length 0..max+2 x address kinds x ports x MTUs x padding policies and extremes x payloadStart positions is packed and unpacked by the real packers; every server x client protocol pair is re-packed in place on a canary-filled buffer with the layout the real service computes; and the real relay is run live on loopback at boundary lengths in both batch modes",
+   note="addresses compared after Unmap (documented conversion); contents of the front headroom are the packer's to use"),
+ "C07": dict(engine="enum", technique=ENUM,
+   text="the real SOCKS5, HTTP CONNECT and Shadowsocks-none clients and servers run over a deterministic in-memory connection for every domain length 1..255, boundary and all ports, credential lengths and byte values, method lists of every length, every command byte, every dial-result code, and every single cut (pairs at boundaries) of the handshake bytes; an independent wire parser and a reference decide honoured/refused, reply class and stream transparency",
+   note="bytes pushed before the success reply and exact reply codes beyond the RFC class are not demanded"),
  "C02": dict(engine="enum", technique=ENUM,
    text="genuine sessions of 32 configurations and several chunk shapes are recorded between the real client and server, split into structural segments, and every tamper operator (bit flips at every byte of handshake/length chunks, cuts at every offset, drop/duplicate/swap/insert/replace of every chunk and pair, reflection, whole-stream substitution and splices with other sessions under the same, another held and a foreign key) is applied at every structural position and fed to a fresh real endpoint under three reader modes, including reads after the first error",
    note="genuine peer = recorded session with the longest common prefix; delivery up to the tamper point and time windows are C01/C03"),
